@@ -35,6 +35,13 @@ class Obj:
     self.tag = tag
 
 
+class EmptyBuffer(Obj):
+  """A singleton object that is falsy (an empty buffer / registry): still the one object for its scope."""
+
+  def __len__(self):
+    return 0
+
+
 def setup(ctx):
   import gin
   from gin import config as gc
@@ -56,7 +63,7 @@ def setup(ctx):
     import time
     n = bump('A')
     time.sleep(0)
-    return Obj(('A', n))
+    return EmptyBuffer(('A', n))
 
   @gin.configurable('c18ctorB', module='c18')
   def ctor_b(dep=None):
